@@ -124,6 +124,9 @@ def collect():
     LB('defaultAllowedUrlSchemes', C.DEFAULT_ALLOWED_URL_SCHEMES)
     B('proxyAgentHeaderValue', C.PROXY_AGENT_HEADER_VALUE)
     B('wsGuid', WebsocketFrame.GUID)
+    from proxy.http.websocket.frame import websocketOpcodes
+    N('wsOpText', websocketOpcodes.TEXT_FRAME, 'opcode WebsocketFrame.text() sends')
+    N('wsOpClose', websocketOpcodes.CONNECTION_CLOSE, 'opcode at which the web server\'s websocket loop stops')
     B('connectMethod', httpMethods.CONNECT)
     # parser state numbering
     for k in ('INITIALIZED', 'LINE_RCVD', 'RCVING_HEADERS', 'HEADERS_COMPLETE', 'RCVING_BODY', 'COMPLETE'):
